@@ -477,6 +477,10 @@ struct Grid {
     unprivileged: bool,
     ext: bool,
     profile: u8,
+    /// the configured source address is of the other address family than the target (both are
+    /// plain builder parameters; `Tracer::run` validates a given source address only for being
+    /// bindable and then hands it to `Channel::connect` as it is)
+    src_other_family: bool,
 }
 
 fn run_grid(g: &Grid, respond: bool) -> Result<Result<(), String>, mc::PanicInfo> {
@@ -487,8 +491,13 @@ fn run_grid(g: &Grid, respond: bool) -> Result<Result<(), String>, mc::PanicInfo
         // long run: every round sends all max_ttl probes; 12 rounds of 254 cross every sequence wrap
         _ => (Duration::from_micros(10), Duration::from_micros(10 * (u64::from(g.max_ttl) + 3)), Duration::from_micros(10 * (u64::from(g.max_ttl) + 3)), Duration::from_micros(1), Duration::from_micros(500), 12usize),
     };
+    let src_cfg: std::net::IpAddr = match (g.src_other_family, g.v6) {
+        (false, _) => src,
+        (true, true) => "10.0.0.1".parse().unwrap(),
+        (true, false) => "fd00::a00:1".parse().unwrap(),
+    };
     let built = Builder::new(dst)
-        .source_addr(Some(src))
+        .source_addr(Some(src_cfg))
         .protocol(g.protocol)
         .multipath_strategy(g.strategy)
         .port_direction(g.ports)
@@ -523,7 +532,7 @@ fn run_grid(g: &Grid, respond: bool) -> Result<Result<(), String>, mc::PanicInfo
     net.fixed_sport = g.ports.src().map(|p| p.0);
     net.fixed_dport = g.ports.dest().map(|p| p.0);
     simnet::install(net, Chooser::new(&[], 0));
-    let r = mc::catch(|| tracer.verif_run_with::<SimSocket, _>(src, |_| {}));
+    let r = mc::catch(|| tracer.verif_run_with::<SimSocket, _>(src_cfg, |_| {}));
     let snap = mc::catch(|| {
         let s = tracer.snapshot();
         let _ = s.hops().len();
@@ -558,7 +567,7 @@ fn part_b(tier: Tier, findings: &Mutex<Findings>) -> serde_json::Value {
                                                     if tier == Tier::Quick && (usize::from(packet_size) / 3 + usize::from(initial_sequence) / 7) % 4 != 0 && !(packet_size == 84 && initial_sequence == 33434) {
                                                         continue;
                                                     }
-                                                    grid.push(Grid { protocol, strategy, ports: p, v6, first_ttl, max_ttl, max_inflight, initial_sequence, packet_size, unprivileged, ext, profile });
+                                                    grid.push(Grid { protocol, strategy, ports: p, v6, first_ttl, max_ttl, max_inflight, initial_sequence, packet_size, unprivileged, ext, profile, src_other_family: false });
                                                 }
                                             }
                                         }
@@ -581,7 +590,7 @@ fn part_b(tier: Tier, findings: &Mutex<Findings>) -> serde_json::Value {
                     for unprivileged in [false, true] {
                         for initial_sequence in [0u16, 33434, 63000, 64000, 64511] {
                             for ext in [false, true] {
-                                grid.push(Grid { protocol, strategy, ports: p, v6, first_ttl: 1, max_ttl: 254, max_inflight: 255, initial_sequence, packet_size: if v6 { 96 } else { 84 }, unprivileged, ext, profile: 2 });
+                                grid.push(Grid { protocol, strategy, ports: p, v6, first_ttl: 1, max_ttl: 254, max_inflight: 255, initial_sequence, packet_size: if v6 { 96 } else { 84 }, unprivileged, ext, profile: 2, src_other_family: false });
                             }
                         }
                     }
@@ -590,6 +599,20 @@ fn part_b(tier: Tier, findings: &Mutex<Findings>) -> serde_json::Value {
         }
     }
     let long_runs = grid.len() - grid_points;
+    // the source address is a builder parameter too: every protocol x strategy x port direction x
+    // family x privilege with a (bindable) source address of the other family
+    for protocol in [Protocol::Icmp, Protocol::Udp, Protocol::Tcp] {
+        for strategy in [MultipathStrategy::Classic, MultipathStrategy::Paris, MultipathStrategy::Dublin] {
+            for p in ports {
+                for v6 in [false, true] {
+                    for unprivileged in [false, true] {
+                        grid.push(Grid { protocol, strategy, ports: p, v6, first_ttl: 1, max_ttl: 3, max_inflight: 24, initial_sequence: 33434, packet_size: if v6 { 96 } else { 84 }, unprivileged, ext: false, profile: 0, src_other_family: true });
+                    }
+                }
+            }
+        }
+    }
+    let mixed_family = grid.len() - grid_points - long_runs;
     let stats = Mutex::new((0u64, 0u64, 0u64, 0u64));
     let chunk = 256;
     let nchunks = grid.len().div_ceil(chunk);
@@ -623,6 +646,7 @@ fn part_b(tier: Tier, findings: &Mutex<Findings>) -> serde_json::Value {
                             if g.first_ttl == 0 { "/first-ttl-0" } else { "" },
                             if g.max_ttl == 255 || g.first_ttl == 255 { "/ttl-255" } else { "" }
                         );
+                        let class = if g.src_other_family { "source-address-of-the-other-family".to_string() } else { class };
                         local.push(Finding {
                             key: format!("accepted-config-crashes:{}:{class}", p.key()),
                             detail: format!("Builder::build accepted {g:?} (network responding: {respond}) and the run panicked: {} at {}:{}", p.message, p.file, p.line),
@@ -660,7 +684,7 @@ fn part_b(tier: Tier, findings: &Mutex<Findings>) -> serde_json::Value {
         }
     });
     let s = stats.into_inner().unwrap();
-    json!({"builder_grid_points": grid_points, "long_runs_across_sequence_wrap": long_runs, "runs": s.0 + s.1, "accepted_runs": s.0, "rejected_up_front": s.1, "ran_to_completion": s.2, "ended_with_error_value": s.3})
+    json!({"builder_grid_points": grid_points, "long_runs_across_sequence_wrap": long_runs, "source_address_of_other_family": mixed_family, "runs": s.0 + s.1, "accepted_runs": s.0, "rejected_up_front": s.1, "ran_to_completion": s.2, "ended_with_error_value": s.3})
 }
 
 pub fn run(args: &CheckArgs) -> i32 {
@@ -675,7 +699,7 @@ pub fn run(args: &CheckArgs) -> i32 {
     rep.set("distinct_nontrivial", json!(a["accepted_and_equal"].as_u64().unwrap_or(0) + b["accepted_runs"].as_u64().unwrap_or(0)));
     rep.set("precedence", a);
     rep.set("accepted_implies_runnable", b);
-    rep.set("rule", json!("(a) 116 layered options (39 scalars, 5 flags, 34 theme colours, 38 key bindings), two valid non-default values each: EVERY pair of options x EVERY pair of placements {absent, file, CLI, both (file v1/CLI v2 and swapped)} (flags: file {absent,true,false} x CLI {absent,present}) in two contexts and, in the richer context, three backgrounds for the remaining options (all absent / all in the file / all on the CLI), through the real clap parser + TOML deserialiser + build_config; oracle: the effective TrippyConfig (Debug of every field) equals the one obtained by giving each option's effective value (CLI, else file, else default) on the command line only - or both are rejected; every option is first shown to have an effect; + single-option sweep: every (file value, CLI value) pair over each scalar option's value domain (all enumeration members; numeric options {{0,1,7,28,64,254,255,256,1024,1025,33434,64511,64512,65535}}; durations {{0ms..1000s}}), incl. invalid values and sentinels such as 0 = auto (a file the TOML deserialiser rejects outright is not a configuration file and is skipped). (b) Builder grid protocol x strategy x port direction x family x first_ttl {0,1,2,254,255} x max_ttl {0,1,3,254,255} x max_inflight {0,1,24,255} x initial_sequence {0,33434,64511,64512,65535} x packet_size {0,27,28,47,48,84,1024,1025} x privilege (thorough: x extension mode x timing profile; quick pairs sizes with sequences): every configuration Builder::build accepts is run over the simulated network with and without responses; + long runs (254 probes per round, 12 rounds, initial sequence {0,33434,63000,64000,64511}) across every sequence wrap-around for every protocol x strategy x port direction x family x privilege x extension mode; a panic is a violation, an Err value is not. distinct_nontrivial = accepted comparisons + accepted runs"));
+    rep.set("rule", json!("(a) 116 layered options (39 scalars, 5 flags, 34 theme colours, 38 key bindings), two valid non-default values each: EVERY pair of options x EVERY pair of placements {absent, file, CLI, both (file v1/CLI v2 and swapped)} (flags: file {absent,true,false} x CLI {absent,present}) in two contexts and, in the richer context, three backgrounds for the remaining options (all absent / all in the file / all on the CLI), through the real clap parser + TOML deserialiser + build_config; oracle: the effective TrippyConfig (Debug of every field) equals the one obtained by giving each option's effective value (CLI, else file, else default) on the command line only - or both are rejected; every option is first shown to have an effect; + single-option sweep: every (file value, CLI value) pair over each scalar option's value domain (all enumeration members; numeric options {{0,1,7,28,64,254,255,256,1024,1025,33434,64511,64512,65535}}; durations {{0ms..1000s}}), incl. invalid values and sentinels such as 0 = auto (a file the TOML deserialiser rejects outright is not a configuration file and is skipped). (b) Builder grid protocol x strategy x port direction x family x first_ttl {0,1,2,254,255} x max_ttl {0,1,3,254,255} x max_inflight {0,1,24,255} x initial_sequence {0,33434,64511,64512,65535} x packet_size {0,27,28,47,48,84,1024,1025} x privilege (thorough: x extension mode x timing profile; quick pairs sizes with sequences): every configuration Builder::build accepts is run over the simulated network with and without responses; + long runs (254 probes per round, 12 rounds, initial sequence {0,33434,63000,64000,64511}) across every sequence wrap-around for every protocol x strategy x port direction x family x privilege x extension mode; + a (bindable) source address of the other address family than the target for every protocol x strategy x port direction x family x privilege; a panic is a violation, an Err value is not. distinct_nontrivial = accepted comparisons + accepted runs"));
     rep.sample(json!({"part": "a", "pair": ["first-ttl", "tui-geoip-mode"], "placements": "file=v1 & CLI=v2 ; file only", "background": "all others in the file"}));
     rep.sample(json!({"part": "b", "grid": "Udp/Dublin/FixedBoth/v6 first_ttl=1 max_ttl=3 max_inflight=24 seq=64511 size=48"}));
     rep.assumptions = vec!["the CLI->builder mapping of app.rs::start_tracer is not exercised (it spawns real sockets); the builder grid covers its image".into(), vcore::c01::ASSUME.into()];
